@@ -242,26 +242,59 @@ def anchor_files(pid):
 STREAM_TIMEOUT = int(os.environ.get('VERIF_STREAM_TIMEOUT', '600'))
 
 
-def run_stream(cmd, lines, crash_tok='crash', timeout=None):
+_HANG = {'line': None}      # the first operation line isolated as never returning (implementation side)
+
+
+def run_stream(cmd, lines, crash_tok='crash', timeout=None, impl_side=False):
     """Feed lines to a line-per-line process; survive aborts by resuming after the killer line, and
     survive a line that never returns (watchdog): the chunk is bisected with a shrinking time limit until the
-    hanging line is isolated; it is answered `hang` (a public operation that loops forever is a violation)."""
+    hanging line is isolated; it is answered `hang` (a public operation that loops forever is a violation).
+    Once ONE hanging line of the implementation has been isolated the verdict is settled: every implementation line not yet
+    executed is answered `skipped` (never compared) instead of being waited for — a change that makes a whole class of
+    inputs loop would otherwise cost one time limit per input."""
     timeout = timeout or STREAM_TIMEOUT
+    if impl_side and _HANG['line'] is not None:
+        return ['skipped'] * len(lines)
     outs = []
     i = 0
     while i < len(lines):
         try:
             p = subprocess.run(cmd, input='\n'.join(lines[i:]) + '\n', stdout=subprocess.PIPE, stderr=subprocess.DEVNULL,
                                text=True, env=ENV, timeout=timeout)
-        except subprocess.TimeoutExpired:
+        except subprocess.TimeoutExpired as te:
             rest = lines[i:]
+            if impl_side and _HANG['line'] is not None:
+                outs.extend(['skipped'] * len(rest))
+                break
             if len(rest) == 1:
                 outs.append('hang')
+                if impl_side:
+                    _HANG['line'] = rest[0]
                 break
+            # what the process had already printed is kept (the harness prints through an 8 KiB buffer: the line that never
+            # returns is among the next <= 4097 lines after the last complete line received)
+            part = te.stdout or ''
+            if isinstance(part, bytes):
+                part = part.decode('utf-8', 'replace')
+            got = part.split('\n')[:-1] if part else []
+            if len(got) < len(rest):
+                outs.extend(got)
+                rest = rest[len(got):]
+                if len(rest) > 4100:
+                    window, tail = rest[:4100], rest[4100:]
+                    outs.extend(run_stream(cmd, window, crash_tok, 40, impl_side))
+                    outs.extend(run_stream(cmd, tail, crash_tok, timeout, impl_side))
+                    break
+                timeout = min(timeout, 80)
+                if len(rest) == 1:
+                    outs.append('hang')
+                    if impl_side:
+                        _HANG['line'] = rest[0]
+                    break
             h = len(rest) // 2
             sub = max(20, timeout // 2)
-            outs.extend(run_stream(cmd, rest[:h], crash_tok, sub))
-            outs.extend(run_stream(cmd, rest[h:], crash_tok, sub))
+            outs.extend(run_stream(cmd, rest[:h], crash_tok, sub, impl_side))
+            outs.extend(run_stream(cmd, rest[h:], crash_tok, sub, impl_side))
             break
         got = p.stdout.split('\n')
         if got and got[-1] == '':
@@ -277,13 +310,13 @@ def run_stream(cmd, lines, crash_tok='crash', timeout=None):
     return outs
 
 
-def run_parallel(cmd, lines, jobs):
+def run_parallel(cmd, lines, jobs, impl_side=False):
     if not lines:
         return []
     size = max(1, (len(lines) + jobs - 1) // jobs)
     chunks = [lines[k:k + size] for k in range(0, len(lines), size)]
     with cf.ThreadPoolExecutor(max_workers=jobs) as ex:
-        res = list(ex.map(lambda c: run_stream(cmd, c), chunks))
+        res = list(ex.map(lambda c: run_stream(cmd, c, impl_side=impl_side), chunks))
     return [x for r in res for x in r]
 
 
@@ -332,6 +365,9 @@ def main():
     args = ap.parse_args()
     pid = args.pid
     tier = args.tier if args.tier in ('quick', 'thorough') else 'quick'
+    if tier == 'quick' and 'VERIF_STREAM_TIMEOUT' not in os.environ:
+        global STREAM_TIMEOUT
+        STREAM_TIMEOUT = 240     # a quick-tier chunk normally takes seconds; 4 minutes without returning means a line never returns
     seed = int(os.environ.get('VERIF_SEED', '20260929'))
     t0 = time.time()
     gmod = importlib.import_module('gen.' + pid.lower())
@@ -415,7 +451,7 @@ def main():
         for name, _, d in PROFILES:
             if const_fail and name == const_fail['profile']:
                 continue
-            im[name] = run_parallel(impl_cmd(d), ls, 8)
+            im[name] = run_parallel(impl_cmd(d), ls, 8, impl_side=True)
         if const_fail:
             # the failed profile cannot run; profile-specific model outputs are compared for the release build only
             im[const_fail['profile']] = None
@@ -461,6 +497,8 @@ def main():
                 if impl[name] is None:
                     continue
                 o = impl[name][i]
+                if o == 'skipped':
+                    continue        # not executed: a hanging line had already been isolated (see run_stream)
                 # a profile-specific model output: `<release output> ## <dbgchk output>` (debug assertions /
                 # overflow checks make the two builds differ only where the model says so)
                 if ' ## ' in l1_all:
